@@ -1487,9 +1487,8 @@ Lemma stuck_witness :
    st_fsm s' = Closed /\ tasks s' = [] /\ alive s' = 0%nat /\
    hd_error (trace s') = Some (EvRet 1%nat CClose ROk)).
 Proof.
-  set (s := stuck_state). assert (Es : s = stuck_state) by reflexivity.
-  vm_compute in s. subst s. rewrite <- Es. clear Es.
-  repeat split; try reflexivity.
+  remember stuck_state as s eqn:Es. vm_compute in Es. subst s.
+  repeat split; try (vm_compute; reflexivity).
   - intros t. simpl. unfold do_step. simpl find_task.
     destruct (Nat.eqb t 1); reflexivity.
   - intros o. simpl. unfold do_child_exit. simpl. intros H.
